@@ -69,7 +69,10 @@ func modOf(src *dhcpv4.DHCPv4, k int, x, y []byte) dhcpv4.Modifier {
 	}
 }
 
-func runBuilder(a [][]byte) (*dhcpv4.DHCPv4, *dhcpv4.DHCPv4, error) {
+func runBuilder(a [][]byte) (*dhcpv4.DHCPv4, *dhcpv4.DHCPv4, error) { return runBuilderOpt(a, true) }
+
+// reuse: call the builder once before with the same modifier list (or a prefix of it), as callers do
+func runBuilderOpt(a [][]byte, reuse bool) (*dhcpv4.DHCPv4, *dhcpv4.DHCPv4, error) {
 	bid := int(numArg(a[0]))
 	n := int(numArg(a[1]))
 	rest := a[2:]
@@ -79,6 +82,30 @@ func runBuilder(a [][]byte) (*dhcpv4.DHCPv4, *dhcpv4.DHCPv4, error) {
 	for len(r) >= 3 {
 		mods = append(mods, modOf(src, int(numArg(r[0])), r[1], r[2]))
 		r = r[3:]
+	}
+	// callers build modifier lists by appending (spare capacity) and pass the same list, or a prefix of it,
+	// to several builders: a builder must not write into the caller's list
+	if len(mods) > 0 && reuse {
+		pool := append(make([]dhcpv4.Modifier, 0, 2*len(mods)+8), mods...)
+		warm := pool
+		if len(rest)%2 == 1 {
+			warm = pool[:len(pool)/2]
+		}
+		switch bid {
+		case 1:
+			dhcpv4.NewReplyFromRequest(src, warm...)
+		case 2:
+			dhcpv4.NewRequestFromOffer(src, warm...)
+		case 3:
+			dhcpv4.NewRenewFromAck(src, warm...)
+		case 4:
+			dhcpv4.NewReleaseFromACK(src, warm...)
+		case 5:
+			dhcpv4.NewInform(src.ClientHWAddr, src.ClientIPAddr, warm...)
+		default:
+			dhcpv4.NewDiscovery(src.ClientHWAddr, warm...)
+		}
+		mods = pool
 	}
 	var p *dhcpv4.DHCPv4
 	var err error
@@ -242,6 +269,16 @@ func genC15(r *Run) {
 		}
 		full := append(append([][]byte{}, a...), mods...)
 		r.Add(eV4Build, full...)
+		// direct oracle: the user's modifiers prevail also when the list has been passed to a builder before
+		if _, p1, e1 := runBuilderOpt(full, true); e1 == nil {
+			if _, p2, e2 := runBuilderOpt(full, false); e2 == nil {
+				o1, o2 := (Case{0, obsPkt4(p1)}).Line(), (Case{0, obsPkt4(p2)}).Line()
+				if o1 != o2 {
+					r.Fail("c15-modifier-list-reused", trunc(Case{eV4Build, full}.Line(), 1500),
+						"the same builder call gives another packet once the caller's modifier list (built by append) has been passed to a builder before: "+firstDiff(o1, o2))
+				}
+			}
+		}
 		r.Count(fmt.Sprintf("builder=%d", bid))
 		r.Count(fmt.Sprintf("user-mods=%d", nm))
 		// property oracles on the version without user modifiers
